@@ -210,6 +210,35 @@ def adjacent_programs():
     return out
 
 
+def widen(stmts, n=260):
+    """the same program with a table of n distinct constants in front of the module's code and of every function, lambda and method body:
+    every constant used afterwards has an index >= 256 (long operand forms, jump distances across them)"""
+    def table(tag):
+        return ["let", "wide_table_%s" % tag, ["list", [["num", 1000.5 + i] for i in range(n)]]]
+    cnt = [0]
+
+    def body(b):
+        cnt[0] += 1
+        return [table("f%d" % cnt[0])] + [st(x) for x in b]
+
+    def ex(e):
+        if not isinstance(e, list) or not e:
+            return e
+        if e[0] == "lambda":
+            return ["lambda", e[1], ex(e[2]) if e[3] else body(e[2]), e[3]]
+        return [ex(x) if isinstance(x, list) else (tuple(ex(y) if isinstance(y, list) else y for y in x) if isinstance(x, tuple) else x) for x in e]
+
+    def st(x):
+        if not isinstance(x, list) or not x:
+            return x
+        if x[0] == "fn":
+            return ["fn", x[1], x[2], body(x[3])]
+        if x[0] == "class":
+            return ["class", x[1], x[2], [(m[0], m[1], m[2], body(m[3])) for m in x[3]]]
+        return ex(x)
+    return [table("m")] + [st(x) for x in stmts]
+
+
 def elseif_programs():
     out = []
     for x in range(0, 5):
@@ -254,6 +283,9 @@ class C01(Check):
             yield ("stmt", p, None, ["min", "full", "comments", "typed"])
         for p in adjacent_programs():
             yield ("stmt", p, None, ["min", "comments"])
+        # the same statement programs behind > 256 constants per function
+        for p in stmt_space(tier) + elseif_programs() + opassign_programs():
+            yield ("stmt", widen(p), None, ["min"])
 
     def describe(self, spec):
         if spec[0] == "expr":
